@@ -14,7 +14,7 @@ VARIABLES env, verb, stage, nest, phase
 
 Verbs == {"aggregate", "insert", "find", "update", "delete", "count", "findAndModify", "findOneAndDelete", "replace",
           "findOneAndReplace", "findOneAndUpdate", "getIndexes", "countDocuments", "getMore", "distinct", "explain",
-          "aggregateDb"}       \* a database-level aggregate: {aggregate: 1, pipeline: [{$currentOp / $changeStream / $documents ...}], $db}
+          "aggregateDb", "getLog"}       \* a database-level aggregate: {aggregate: 1, pipeline: [{$currentOp / $changeStream / $documents ...}], $db}
 Comps   == {"COMMAND", "WRITE", "NETWORK", "INDEX"}
 Msgs    == {"Slow query", "Index build: done"}
 Holders == {"command", "cmd", "originatingCommand", "all"}
@@ -55,6 +55,8 @@ CmdDoc ==
               <<"pipeline", Arr(<< Obj(<< <<"$currentOp", Obj(<< <<"allUsers", Bool("free")>> >>)>> >>),
                                    Obj(<< <<"$match", Obj(<< <<"uf1", Leaf("plain", "user")>> >>)>> >>) >>)>>,
               <<"cursor", Obj(<< >>)>>, <<"$db", NsName>> >>)
+  ELSE IF verb = "getLog"      \* the first field of a command is not always a collection
+  THEN Obj(<< <<"getLog", Str("envstr", "env")>>, <<"comment", Str("envstr", "env")>>, <<"$db", NsName>> >>)
   ELSE IF verb = "explain"
   THEN Obj(<< <<"explain", Obj(<< <<"find", NsName>>, <<"filter", Obj(<< <<"uf1", Leaf("plain", "user")>> >>)>> >>)>>, <<"$db", NsName>> >>)
   ELSE Obj(<< <<verb, NsName>>, <<"filter", Obj(<< <<"uf1", Leaf("plain", "user")>> >>)>>, <<"ns", NsLeaf("nseq")>>, <<"$db", NsName>> >>)
